@@ -76,6 +76,7 @@ func loadZone(name string) *time.Location {
 type treeCache struct {
 	trees map[string]*formula.SourceCode
 	hits  int
+	bufs  [][]byte // the callers' text buffers (one per parse in flight): overwritten as soon as the parse is over
 }
 
 func (tc *treeCache) parse(text string, reuse bool) (*formula.SourceCode, error) {
@@ -86,7 +87,28 @@ func (tc *treeCache) parse(text string, reuse bool) (*formula.SourceCode, error)
 		tc.hits++
 		return src, nil
 	}
-	src, err := formula.ParseSourceCode([]byte(text))
+	// the caller reads every formula into one and the same buffer, as a server reading requests
+	// does; a parsed tree must not depend on what the buffer holds later
+	var buf []byte
+	if n := len(tc.bufs); n > 0 {
+		buf, tc.bufs = tc.bufs[n-1], tc.bufs[:n-1]
+	} else {
+		buf = make([]byte, 0, 8192)
+	}
+	var content []byte
+	if len(text) <= cap(buf) {
+		content = append(buf[:0], text...)
+	} else {
+		content = []byte(text)
+	}
+	src, err := formula.ParseSourceCode(content)
+	// the parse is over: the caller's buffer receives the next request
+	for i := range content {
+		content[i] = "$x9'(, "[i%7]
+	}
+	if len(text) <= cap(buf) {
+		tc.bufs = append(tc.bufs, buf)
+	}
 	if err == nil && src != nil {
 		tc.trees[text] = src
 	}
